@@ -228,6 +228,7 @@ func main() {
 		for _, im := range e.Imports {
 			w.Line("import %s", im)
 		}
+		w.Line("set_option autoImplicit false -- an identifier the translation left unbound must not be auto-bound")
 		w.Line("namespace EgVerif.Gen.%s", e.Module)
 		w.Line("")
 		if err := e.Run(r, w); err != nil {
